@@ -309,6 +309,7 @@ def quotaCheck (fs : List QFile) : QRes :=
 inductive XErr where
   | build (e : BuildErr)
   | flowRef        -- "failed to incorporate flow": flow not found
+  | refCycle       -- "circular flow reference detected"
   | foreignRoot    -- "foreign root node not found" / "root node not found for flow"
   | fuel           -- recursion bound exceeded (Go: unbounded recursion in incorporateFlow)
 deriving DecidableEq, Repr, Inhabited
@@ -316,6 +317,7 @@ deriving DecidableEq, Repr, Inhabited
 def XErr.str : XErr → String
   | .build e => e.str
   | .flowRef => "flowref"
+  | .refCycle => "refcycle"
   | .foreignRoot => "foreignroot"
   | .fuel => "fuel"
 
@@ -423,7 +425,7 @@ def buildX (pts : List PType) (fs : List XFlow) (home : String) (d : Dir) :
       match findFlow fs tgt with
       | none => .error .flowRef
       | some tf =>
-        if stack.contains tgt || tgt == home then .error .flowRef
+        if stack.contains tgt || tgt == home then .error .refCycle
         else buildX pts fs home d fuel (tgt :: stack) tgt s' (tf.conns d)
     match stepX pts fs home d inc cur s c with
     | .error e => .error e
